@@ -630,6 +630,23 @@ func (e *Env) Value(plan Plan, k Key, pos string, t *ast.Type, rt reflect.Type) 
 	// A null may be injected where GraphQL allows it, or - to provoke non-null violations - where
 	// the Go type can express it.
 	if GoNilable(rt) && plan.Null(k, pos) {
+		// for a NULLABLE interface / union position user code may hold the null as a typed nil pointer
+		// (`var u *User; return u, nil`): half of the nulls at such positions are built that way.
+		// (At a non-null position gqlgen completes a typed nil to null WITHOUT the "must not be null"
+		// error, so the null propagates with no error at all: observed, DESIGN 8.7; the workloads
+		// keep to the nullable case, whose outcome is defined.)
+		if def := e.Schema.Types[t.NamedType]; def != nil && !t.NonNull && (def.Kind == ast.Interface || def.Kind == ast.Union) && rt.Kind() == reflect.Interface && H("typednil", k.String(), pos)%2 == 0 {
+			var names []string
+			for _, p := range e.Schema.GetPossibleTypes(def) {
+				if ot, ok := e.Probe.ObjTypes[p.Name]; ok && ot.Kind() == reflect.Struct {
+					names = append(names, p.Name)
+				}
+			}
+			sort.Strings(names)
+			if len(names) > 0 {
+				return &Val{Kind: KNull, Type: names[H("typednilpick", k.String(), pos)%uint64(len(names))]}
+			}
+		}
 		return &Val{Kind: KNull}
 	}
 	if !t.NonNull && !GoNilable(rt) {
@@ -728,6 +745,11 @@ func (e *Env) StructFieldType(object, field string) (reflect.Type, bool) {
 // Build converts an abstract value into a Go value of type rt.
 func (e *Env) Build(plan Plan, v *Val, rt reflect.Type) reflect.Value {
 	if v.Kind == KNull {
+		if v.Type != "" && rt.Kind() == reflect.Interface {
+			if pz := reflect.Zero(reflect.PointerTo(e.Probe.ObjTypes[v.Type])); pz.Type().Implements(rt) {
+				return pz.Convert(rt) // typed nil pointer inside a non-nil interface value
+			}
+		}
 		return reflect.Zero(rt)
 	}
 	if rt.Kind() == reflect.Ptr {
